@@ -52,7 +52,9 @@ type c10Host struct {
 }
 
 type c10Contract struct {
-	id      types.FileContractID
+	// a monitor already reported this contract: later RPCs would only repeat it
+	offPayout, offFunding bool
+	id                    types.FileContractID
 	key     types.PrivateKey
 	sectors int // number of sectors the host holds for it
 	cleared bool
@@ -226,12 +228,14 @@ func (c *c10Case) observe(kind string, ok bool) string {
 			c10Cur(ct.LockedCollateral), c10UsageTerm(ct.Usage)))
 		// property monitor 1: the money that moved = what is recorded
 		want := ct.LockedCollateral.Add(c10UsageSum(ct.Usage))
-		if !r.vh.Equals(want) {
+		if !r.vh.Equals(want) && !c.cons[i].offPayout {
+			c.cons[i].offPayout = true
 			c.em.Monitor("v1-payout-differs-from-locked-plus-usage:"+kind,
 				fmt.Sprintf("contract %d after %s: valid host payout %s, locked %s + usage %s = %s", i+1, kind, r.vh, ct.LockedCollateral, c10UsageSum(ct.Usage), want))
 		}
 		// property monitor 2: unspent account funding is backed by the funding rows
-		if !ct.Usage.AccountFunding.Equals(fundingByContract[c.cons[i].id]) {
+		if !ct.Usage.AccountFunding.Equals(fundingByContract[c.cons[i].id]) && !c.cons[i].offFunding {
+			c.cons[i].offFunding = true
 			c.em.Monitor("v1-unspent-funding-differs-from-funding-rows:"+kind,
 				fmt.Sprintf("contract %d after %s: usage.AccountFunding %s, funding rows %s", i+1, kind, ct.Usage.AccountFunding, fundingByContract[c.cons[i].id]))
 		}
@@ -259,6 +263,9 @@ func (c *c10Case) snap(i int) c10Snap {
 
 // deltaMonitor: an accepted RPC that moved `paid` to the host must raise the recorded usage by exactly that
 func (c *c10Case) deltaMonitor(kind string, i int, before c10Snap, paid types.Currency) {
+	if c.cons[i].offPayout {
+		return
+	}
 	after := c.snap(i)
 	if !after.vh.Equals(before.vh.Add(paid)) {
 		c.em.Monitor("v1-payout-delta-differs-from-payment:"+kind, fmt.Sprintf("contract %d: payout %s -> %s, paid %s", i+1, before.vh, after.vh, paid))
@@ -1409,7 +1416,7 @@ func (c *c10Case) run(id int) {
 		c.read2(0, 0)
 		c.write2(0, 0)
 		c.renew2(0, 0)
-		c.write2(1, 0)
+		c.write2(len(c.cons)-1, 0)
 	case 2:
 		// directed: fund, spend from the account, renew through RHP3, keep spending the old funding
 		form()
@@ -1419,7 +1426,7 @@ func (c *c10Case) run(id int) {
 		c.exec3()
 		c.renew3(0)
 		c.exec3()
-		c.fund3(1, 0, 0)
+		c.fund3(len(c.cons)-1, 0, 0)
 		c.exec3()
 		c.simple3(1, nil)
 	default:
